@@ -204,11 +204,15 @@ type prog struct {
 	wrapStart int
 	wrapEnd   int
 	counter   int
+	viaScript bool // anonymous sources go through Compile("", src) and a Script too
 	history   int // 0: fresh runtime; otherwise the trace limit of the warm-up runs
 }
 
 const prelude = `function ok(){ return 1 } function ok2(){ return ok } var H = {ok: ok, h: {ok: ok}};
 var U; var NUL = null; var O = {k: 1}; var NUM = 1.5; var ARR = []; var CYC = {}; CYC.c = CYC;
+var GS = { get x() { return zz }, set y(v) { zz }, get z() { return ok() }, set w(v) { ok() } };
+function evThrow() { try { eval("zz") } catch (e) { return 1 } } function evFin() { try { eval("null.x") } finally { return 1 } }
+function evCatch() { try { eval("U()") } catch (e) {} return ok() } function evLeak() { eval("\n zz") } function w0() { zz }
 var EV = eval; var BAD = {toString: 1, valueOf: 1}; var FROZEN = Object.freeze({a: 1}); var __r;
 function __facts(e) {
   var names = ["Error","EvalError","RangeError","ReferenceError","SyntaxError","TypeError","URIError"];
@@ -221,6 +225,24 @@ function __facts(e) {
           (typeof e.message === "string" && e.message.length > 0) ? 1 : 0].join(",") +
          "\u0001" + String(e) + "\u0001" + e.name + "\u0001" + e.message + "\u0001" + e.stack;
 }`
+
+// host functions that re-enter the runtime (and swallow what happens there)
+func setHost(vm *otto.Otto) {
+	Must(vm.Set("hostRun", func(call otto.FunctionCall) otto.Value {
+		src, _ := call.Argument(0).ToString()
+		_, _ = call.Otto.Run(src)
+		return otto.UndefinedValue()
+	}))
+	Must(vm.Set("hostEval", func(call otto.FunctionCall) otto.Value {
+		src, _ := call.Argument(0).ToString()
+		_, _ = call.Otto.Eval(src)
+		return otto.UndefinedValue()
+	}))
+	Must(vm.Set("hostCall", func(call otto.FunctionCall) otto.Value {
+		_, _ = call.Otto.Call("w0", nil)
+		return otto.UndefinedValue()
+	}))
+}
 
 func (p *prog) newFile(nameID int, name string) *fileBuf {
 	f := newBuf(len(p.files), nameID, name)
@@ -268,7 +290,7 @@ func ev(k string, at pos) string { return fmt.Sprintf("EvCall %s %d %d %d", k, a
 // a completed statement that leaves something behind in the frame
 func (p *prog) prior(w *fileBuf, lv *lvl) {
 	r := p.r
-	n := 12
+	n := 16
 	for {
 		switch r.Intn(n) {
 		case 0:
@@ -326,8 +348,8 @@ func (p *prog) prior(w *fileBuf, lv *lvl) {
 				w.w("ok2()();")
 				lv.events = append(lv.events, ev("KIdent", a), ev("KOther", a))
 			}
-		case 10, 11:
-			if !p.q.evalStale || p.evalDepth > 0 {
+		case 10, 11: // a completed direct eval (normal completion): the frame runs the eval's text and gets its own back
+			if p.evalDepth > 0 {
 				continue
 			}
 			lv.events = append(lv.events, ev("KIdent", w.here()))
@@ -339,7 +361,7 @@ func (p *prog) prior(w *fileBuf, lv *lvl) {
 			case 1:
 				lv.events = append(lv.events, ev("KIdent", ef.here()))
 				ef.w("ok()")
-			default: // long enough for stale offsets of the outer file to land inside it
+			default: // long enough for offsets of the outer file to land inside it
 				for k := r.Intn(30) + 5; k > 0; k-- {
 					ef.w(Pick(r, []string{"/* pad pad pad */", "\n", "  ", "1;", "\n\n", "// x\n"}))
 				}
@@ -349,6 +371,82 @@ func (p *prog) prior(w *fileBuf, lv *lvl) {
 			}
 			lv.events = append(lv.events, "EvEvalLeave")
 			w.w("eval(" + jsQuote(string(ef.b)) + ");")
+		case 12, 13, 14: // a direct eval left by a throw that this activation catches
+			if p.evalDepth > 0 {
+				continue
+			}
+			form := r.Intn(4)
+			pre := []string{"try { ", "try { try { ", "try { if (1) { ", "try { var q = "}[form]
+			w.w(pre)
+			lv.events = append(lv.events, ev("KIdent", w.here()))
+			ef := p.newFile(0, "")
+			lv.events = append(lv.events, fmt.Sprintf("EvEvalEnter %d", ef.table))
+			for k := r.Intn(3); k > 0; k-- {
+				ef.w(Pick(r, []string{"/* pad */ ", "\n", "1;\n", "  "}))
+			}
+			if r.Intn(2) == 0 {
+				lv.events = append(lv.events, ev("KIdent", ef.here()))
+				ef.w("ok(); ")
+			}
+			ef.w(Pick(r, []string{"zz", "null.x", "throw 1", "U()", "throw new Error('q')", "[1].forEach(function(){ zz })", "(function(){ zz })()", "1 in 2"}))
+			src := string(ef.b)
+			switch {
+			case strings.HasSuffix(src, "new Error('q')"):
+				at := ef.here()
+				lv.events = append(lv.events, fmt.Sprintf("EvCall KIdent %d %d %d", at.idx-10, at.line, at.col-10))
+			case strings.HasSuffix(src, "[1].forEach(function(){ zz })"):
+				at := ef.here()
+				lv.events = append(lv.events, fmt.Sprintf("EvCall KDot %d %d %d", at.idx-29, at.line, at.col-29))
+			case strings.HasSuffix(src, "(function(){ zz })()"):
+				at := ef.here()
+				lv.events = append(lv.events, fmt.Sprintf("EvCall KOther %d %d %d", at.idx-20, at.line, at.col-20))
+			}
+			lv.events = append(lv.events, "EvEvalLeave")
+			w.w("eval(" + jsQuote(src) + ")")
+			switch form {
+			case 0, 3:
+				w.w(" } catch (e1) {}")
+			case 1:
+				w.w(" } finally { ")
+				lv.events = append(lv.events, ev("KIdent", w.here()))
+				w.w("ok() } } catch (e1) {}")
+			default:
+				w.w(" } } catch (e1) { ")
+				lv.events = append(lv.events, ev("KDot", w.here()))
+				w.w("H.ok() }")
+			}
+		case 15: // other constructs that swap frame state, left by a throw caught here or further in
+			switch r.Intn(8) {
+			case 0:
+				w.w("try { ")
+				lv.events = append(lv.events, ev("KIdent", w.here()))
+				w.w("EV(\"zz\") } catch (e1) {}")
+			case 1:
+				w.w("try { ")
+				lv.events = append(lv.events, ev("KDot", w.here()))
+				w.w("[1].forEach(function(){ zz }) } catch (e1) {}")
+			case 2:
+				w.w("try { ")
+				a := w.here()
+				lv.events = append(lv.events, ev("KIdent", a), ev("KDot", a))
+				w.w("Function(\"zz\").call(null) } catch (e1) {}")
+			case 3:
+				w.w(Pick(r, []string{"try { GS.x } catch (e1) {}", "try { GS.y = 1 } catch (e1) {}", "GS.z;", "GS.w = 2;"}))
+			case 4:
+				lv.events = append(lv.events, ev("KIdent", w.here()))
+				w.w(Pick(r, []string{"evThrow();", "evFin();", "evCatch();"}))
+			case 5:
+				lv.events = append(lv.events, ev("KIdent", w.here()))
+				w.w(Pick(r, []string{"hostRun(\"zz\");", "hostRun(\"ok()\");", "hostEval(\"null.x\");", "hostEval(\"1\");", "hostCall();", "hostRun(\"eval('zz')\");"}))
+			case 6:
+				w.w("try { ")
+				lv.events = append(lv.events, ev("KIdent", w.here()))
+				w.w("evLeak() } catch (e1) {}")
+			default:
+				w.w("try { ")
+				lv.events = append(lv.events, ev("KDot", w.here()))
+				w.w("JSON.stringify({toJSON: function(){ zz }}) } catch (e1) {}")
+			}
 		}
 		return
 	}
@@ -533,6 +631,49 @@ func (p *prog) final(w *fileBuf, li, si int, inFunc bool) {
 	w.w(post)
 }
 
+// writes an argument list; calls inside it are call sites of the frame that come BEFORE the call itself
+func (p *prog) args(w *fileBuf, lv *lvl) {
+	r := p.r
+	switch r.Intn(9) {
+	case 0:
+		w.w("()")
+	case 1:
+		w.w("(1)")
+	case 2:
+		w.w("(1, 2)")
+	case 3:
+		w.w("(")
+		lv.events = append(lv.events, ev("KIdent", w.here()))
+		w.w("ok())")
+	case 4:
+		w.w("(1, ")
+		lv.events = append(lv.events, ev("KDot", w.here()))
+		w.w("H.ok())")
+	case 5:
+		w.w("(")
+		a := w.here()
+		w.w("ok(")
+		lv.events = append(lv.events, ev("KIdent", w.here()), ev("KIdent", a))
+		w.w("ok()), 2)")
+	case 6:
+		w.w("(new ")
+		lv.events = append(lv.events, ev("KIdent", w.here()))
+		w.w("ok(), ")
+		lv.events = append(lv.events, ev("KBracket", w.here()))
+		w.w("H[\"ok\"]())")
+	case 7:
+		w.w("(")
+		lv.events = append(lv.events, ev("KDot", w.here()))
+		w.w("[1, 2].map(function (x) { return ok() }))")
+	default:
+		w.w(" (")
+		lv.events = append(lv.events, ev("KDot", w.here()))
+		w.w("H.h.ok(1), ")
+		lv.events = append(lv.events, ev("KIdent", w.here()))
+		w.w("ok())")
+	}
+}
+
 func (p *prog) emitCall(w *fileBuf, li, si int) {
 	r := p.r
 	lv := p.levels[li]
@@ -552,15 +693,23 @@ func (p *prog) emitCall(w *fileBuf, li, si int) {
 		}
 		switch s.call {
 		case "plain":
-			lv.events = append(lv.events, ev(form, w.here()))
-			w.w(ref + Pick(r, []string{"()", "(1)", "(1, 2)", " ()"}))
+			at := w.here()
+			w.w(ref)
+			p.args(w, lv)
+			lv.events = append(lv.events, ev(form, at))
 		case "new":
 			w.w("new ")
-			lv.events = append(lv.events, ev(form, w.here()))
-			w.w(ref + Pick(r, []string{"()", "", "(1)"}))
+			at := w.here()
+			w.w(ref)
+			if r.Intn(4) > 0 {
+				p.args(w, lv)
+			}
+			lv.events = append(lv.events, ev(form, at))
 		case "call":
-			lv.events = append(lv.events, ev("KDot", w.here()))
-			w.w(ref + ".call(null)")
+			at := w.here()
+			w.w(ref + ".call")
+			p.args(w, lv)
+			lv.events = append(lv.events, ev("KDot", at))
 			native("call")
 		case "apply":
 			lv.events = append(lv.events, ev("KDot", w.here()))
@@ -985,7 +1134,7 @@ type runResult struct {
 // statement does with the exception ("" = no try/catch: the error comes back from Run)
 func (p *prog) exec(vm *otto.Otto, catchText string) (otto.Value, error) {
 	exec := func(f *fileBuf, src string) (otto.Value, error) {
-		if f.name == "" {
+		if f.name == "" && !p.viaScript {
 			return vm.Run(src)
 		}
 		sc, err := vm.Compile(f.name, src)
@@ -1040,6 +1189,7 @@ func (p *prog) run(wrapped bool, viaCopy bool) runResult {
 		if viaCopy {
 			vm = vm.Copy()
 		}
+		setHost(vm)
 		catchText := ""
 		if wrapped {
 			catchText = "__r = __facts(e)"
@@ -1182,6 +1332,7 @@ func randomProgram(r *rand.Rand) (*prog, string) {
 		p.limit = scopes + r.Intn(5) - 2
 	}
 	p.kind = p.pickKind()
+	p.viaScript = r.Intn(3) == 0
 	p.plan(scopes)
 	for i := len(p.steps) - 1; i >= 0; i-- {
 		if p.steps[i].what == "decl" {
@@ -1222,7 +1373,13 @@ func genSession(env *Env) {
 	r := env.Rng
 	n := 2 + r.Intn(3)
 	progs := make([]*prog, n)
+	sameText := r.Intn(2) == 0
 	for i := range progs {
+		if i > 0 && sameText && r.Intn(4) > 0 {
+			// the same source texts again, compiled under other file names (or none) on the same runtime
+			progs[i] = progs[r.Intn(i)].renamed(r)
+			continue
+		}
 		progs[i], _ = randomProgram(r)
 		if r.Intn(2) == 0 { // a later, shallower error is what overwrites shared state
 			for len(progs[i].levels) > 3 {
@@ -1234,6 +1391,7 @@ func genSession(env *Env) {
 	panics := make([]interface{}, n)
 	vm1 := otto.New()
 	_ = RunJS(vm1, prelude)
+	setHost(vm1)
 	for i, p := range progs {
 		p := p
 		vm1.SetStackTraceLimit(p.limit)
@@ -1242,6 +1400,7 @@ func genSession(env *Env) {
 	}
 	vm2 := otto.New()
 	_ = RunJS(vm2, prelude+"\nvar __keep = [];")
+	setHost(vm2)
 	for i, p := range progs {
 		p := p
 		vm2.SetStackTraceLimit(p.limit)
@@ -1256,6 +1415,37 @@ func genSession(env *Env) {
 		}
 		p.emit(env, "session", fmt.Sprintf("session step %d of %d (inspected after the last)", i+1, n), r1, r2)
 	}
+}
+
+// the same program with its lib and main files under other names (the texts are byte-identical)
+func (p *prog) renamed(r *rand.Rand) *prog {
+	q := *p
+	q.files = make([]*fileBuf, len(p.files))
+	for i, f := range p.files {
+		c := *f
+		q.files[i] = &c
+		if f == p.lib {
+			q.lib = &c
+		}
+		if f == p.main {
+			q.main = &c
+		}
+	}
+	other := func(old int) int {
+		for {
+			if id := r.Intn(len(fileNames)); id != old {
+				return id
+			}
+		}
+	}
+	q.main.nameID = other(p.main.nameID)
+	q.main.name = fileNames[q.main.nameID]
+	if q.lib != nil && r.Intn(2) == 0 {
+		q.lib.nameID = 1 + (p.lib.nameID % (len(fileNames) - 1))
+		q.lib.name = fileNames[q.lib.nameID]
+	}
+	q.viaScript = r.Intn(2) == 0
+	return &q
 }
 
 func (p *prog) emit(env *Env, qname, how string, r1, r2 runResult) {
@@ -1545,6 +1735,177 @@ func (p *prog) badArg(fid int) string {
 	}
 }
 
+
+var evalScenarios = []struct {
+	id   int
+	expr string
+}{
+	{1, "new ¤NF(¤zz)"},
+	{2, "new ¤NF(se(1), ¤zz)"},
+	{3, "new ¤NF(se(1), se(2))"},
+	{4, "new ¤zz1(se(1))"},
+	{5, "new ¤NF(¤U.x)"},
+	{6, "¤NF(¤zz)"},
+	{7, "¤NF(se(1), se(2))"},
+	{8, "¤zz1(se(1))"},
+	{9, "¤O.nf(se(1), ¤zz)"},
+	{10, "¤O.nf(se(1))"},
+	{11, "¤U.m(se(1))"},
+	{12, "¤O[se(1)](se(2))"},
+	{13, "¤zz1 in ¤zz2"},
+	{14, "se(1) in ¤zz2"},
+	{15, "¤zz1 instanceof ¤zz2"},
+	{16, "se(1) instanceof NF"},
+	{17, "delete ¤zz1[se(1)]"},
+	{18, "delete ¤U[se(1)]"},
+	{19, "¤U[¤zz]"},
+	{20, "¤U[se(1)]"},
+	{21, "¤zz1 += se(1)"},
+	{22, "¤U.x += se(1)"},
+	{23, "¤U.x = se(1)"},
+	{24, "¤zz1.x = se(1)"},
+	{25, "¤O.k.z.w = se(1)"},
+	{26, "¤U[se(1)] = se(2)"},
+	{27, "¤NF(¤U.x, se(1))"},
+	{28, "se(1) + ¤zz1 + se(2)"},
+	{29, "[se(1), ¤zz1, se(2)]"},
+	{30, "({a: se(1), b: ¤zz1, c: se(2)})"},
+	{31, "¤U[TS]"},
+	{32, "¤U[TS] = se(1)"},
+	{33, "delete ¤U[TS]"},
+	{34, "¤NF[TS]()"},
+	{35, "se(1) in NF"},
+	{36, "¤O.nf.x.y(se(1))"},
+	{37, "new ¤O.nf(se(1), ¤zz)"},
+	{38, "¤zz1[se(1)]"},
+	{39, "¤zz1(¤zz2)"},
+	{40, "¤zz1 = ¤zz2"},
+	{41, "¤O.k.z[se(1)] = se(2)"},
+	{42, "¤zz1 -= ¤zz2"},
+	{43, "O[se(1)] += ¤zz2"},
+	{44, "¤U[TT]"},
+	{45, "new ¤zz1(¤zz2)"},
+	{46, "¤NF(se(1), TT + 1)"},
+	{47, "new ¤U.C(se(1))"},
+	{48, "¤zz1.m(se(1))"},
+	{49, "(se(1), ¤zz1, se(2))"},
+	{50, "new ¤NF(se(1), TT + 1)"},
+}
+
+// ---------------------------------------------------------------------------
+// early error against late error: which one wins, where, after which side effects
+
+const evalPrelude = `var log = []; function se(n) { log.push(n); return n } var U; var NF = 5; var O = {k: 1, nf: 1};
+var TS = {toString: function () { log.push(9); return "t" }};
+var TT = {toString: function () { log.push(9); var e = new RangeError("user"); e.user = true; throw e }};
+`
+
+func genEval(env *Env, pinned int) {
+	r := env.Rng
+	sc := Pick(r, evalScenarios)
+	if pinned > 0 {
+		for _, s := range evalScenarios {
+			if s.id == pinned {
+				sc = s
+			}
+		}
+	}
+	w := newBuf(0, 0, "")
+	inFn := r.Intn(2) == 0 && pinned == 0
+	if inFn {
+		w.w("function f1(a) {")
+	}
+	if pinned == 0 {
+		for k := r.Intn(4); k > 0; k-- {
+			w.w(Pick(r, []string{"\n", "  ", "/* c */ ", "1;\n", "\n   ", "var t = 2; "}))
+		}
+		w.w(Pick(r, []string{"", "var v = ", "if (1) ", "; "}))
+	}
+	var marks []pos
+	e := sc.expr
+	for {
+		i := strings.Index(e, "¤")
+		if i < 0 {
+			break
+		}
+		w.w(e[:i])
+		marks = append(marks, w.here())
+		e = e[i+len("¤"):]
+	}
+	w.w(e + ";")
+	if inFn {
+		w.w("\n}\nf1();")
+	}
+	src := string(w.b)
+	vm := otto.New()
+	_ = RunJS(vm, prelude)
+	_ = RunJS(vm, evalPrelude)
+	o1 := RunJS(vm, src)
+	lg1 := ""
+	if v, err := vm.Get("log"); err == nil {
+		lg1, _ = v.ToString()
+	}
+	// second runtime: the same under try/catch, class facts of the caught value
+	vm2 := otto.New()
+	_ = RunJS(vm2, prelude)
+	_ = RunJS(vm2, evalPrelude)
+	o2 := RunJS(vm2, "var out = 0; try { "+src+" } catch (e) { out = (e && e.user) ? 90 : __facts(e).split(\"\\u0001\")[0] } [out, log.join(\",\")].join(\"|\")")
+	class, tok := int64(8), int64(0)
+	switch {
+	case o1.Panic != nil || o2.Panic != nil:
+		class = 9
+	case o1.Err == nil:
+		class = 0
+	default:
+		text := o1.Err.Error()
+		caught := ""
+		if o2.Err == nil && o2.Val.IsString() {
+			caught = o2.Val.String()
+		}
+		oe, isOtto := o1.Err.(*otto.Error)
+		switch {
+		case text == "RangeError: user" && caught == "90|"+lg1:
+			class = 90
+		case isOtto && strings.HasPrefix(text, "ReferenceError: ") && caught == "4,1,1,1,1,1|"+lg1:
+			class = 4
+		case isOtto && strings.HasPrefix(text, "TypeError: ") && caught == "6,1,1,1,1,1|"+lg1:
+			class = 6
+		}
+		if isOtto && class != 90 {
+			_, frames, ok := parseFrames(oe.String())
+			if ok && len(frames) > 0 {
+				for i, m := range marks {
+					nm := "0"
+					if inFn {
+						nm = "1010"
+					}
+					if frames[0] == fmt.Sprintf("(%s, SPos 0 %d %d)", nm, m.line, m.col) {
+						tok = int64(i + 1)
+					}
+				}
+			}
+		}
+	}
+	var lg []int64
+	for _, p := range strings.Split(lg1, ",") {
+		if p == "" {
+			continue
+		}
+		v, err := strconv.Atoi(p)
+		if err != nil {
+			v = -1
+		}
+		lg = append(lg, int64(v))
+	}
+	errText := ""
+	if oe, ok := o1.Err.(*otto.Error); ok {
+		errText = oe.String()
+	} else if o1.Err != nil {
+		errText = o1.Err.Error()
+	}
+	env.Add(fmt.Sprintf("CEval %d (%d, %d, %s)", sc.id, class, tok, Czlist(lg)),
+		fmt.Sprintf("evalorder #%d %q -> %q log=[%s] caught=%v", sc.id, src, errText, lg1, o2.Val), "evalorder", true)
+}
 
 // ---------------------------------------------------------------------------
 // in / instanceof with operands whose conversion methods log and throw
@@ -1941,20 +2302,22 @@ func genFileSet(env *Env, pinned int) {
 
 func runC19(env *Env) {
 	env.Import = "Otto.C19.Corr"
-	env.Rule = "programs: an error-raising construct of one of 51 kinds placed by a position-tracking generator inside 0-14 nested frames (declared/anonymous/named function expressions, methods, constructors, call/apply/bind, callbacks of 11 built-ins, IIFEs, direct and indirect eval, Function()), 0-3 earlier statements per frame (calls of every callee form, completed evals, caught errors), up to two named files plus eval texts, trace limits -3..15 correlated with the depth, optionally through Otto.Copy; plus the argument-dependent raises (toString radix, toFixed/toExponential/toPrecision digits, new Array(len), length = len) over boundary arguments (range ends, fractions, residues of the legal range modulo 2^31/2^32/2^53/2^63/2^64, negatives, NaN, infinities, numeric strings, objects with valueOf/toString) in both directions; `in`/`instanceof` with operands whose conversion methods log and throw (5 left x 4 right operand kinds, both operators: outcome, class facts and the conversion log); sessions of 2-4 programs on one runtime whose retained errors (Go *otto.Error and caught JS error objects) are all inspected only after the last one was raised; file.Position on random texts/offsets, parser positions of an offending token, uncaught text after name/message mutations, FileSet.Position; non-trivial = distinct case with at least one call frame (traces) or a line break (positions); all text/fileset/facts cases"
+	env.Rule = "programs: an error-raising construct of one of 51 kinds placed by a position-tracking generator inside 0-14 nested frames (declared/anonymous/named function expressions, methods, constructors, call/apply/bind, callbacks of 11 built-ins, IIFEs, direct and indirect eval, Function()), 0-3 earlier statements per frame (calls of every callee form, completed evals, caught errors), up to two named files plus eval texts, trace limits -3..15 correlated with the depth, optionally through Otto.Copy; plus the argument-dependent raises (toString radix, toFixed/toExponential/toPrecision digits, new Array(len), length = len) over boundary arguments (range ends, fractions, residues of the legal range modulo 2^31/2^32/2^53/2^63/2^64, negatives, NaN, infinities, numeric strings, objects with valueOf/toString) in both directions; `in`/`instanceof` with operands whose conversion methods log and throw (5 left x 4 right operand kinds, both operators: outcome, class facts and the conversion log); 50 scenarios in which both an early and a late error are possible (new, call, member call, in, instanceof, delete, subscripts, assignment, compound assignment, literals: which error wins by class and position, and the log of side effects); earlier statements of every frame include direct evals left normally and by throws caught in the same activation (also through finally), indirect eval, Function(), callbacks, getters/setters and host functions that re-enter Run/Eval/Call; sessions of 2-4 programs on one runtime (also the same texts under other file names, through Run, Compile and Script objects) whose retained errors (Go *otto.Error and caught JS error objects) are all inspected only after the last one was raised; file.Position on random texts/offsets, parser positions of an offending token, uncaught text after name/message mutations, FileSet.Position; non-trivial = distinct case with at least one call frame (traces) or a line break (positions); all text/fileset/facts cases"
 	pins := []func(){}
 	for k := 1; k <= 9; k++ {
 		k := k
 		pins = append(pins, func() { genProgram(env, k) })
 	}
-	pins = append(pins, func() { genOrder(env, 1) }, func() { genArg(env, 1) }, func() { genPos(env, 1) }, func() { genPos(env, 2) }, func() { genSyntax(env, 1) },
+	pins = append(pins, func() { genEval(env, 4) }, func() { genEval(env, 44) }, func() { genOrder(env, 1) }, func() { genArg(env, 1) }, func() { genPos(env, 1) }, func() { genPos(env, 2) }, func() { genSyntax(env, 1) },
 		func() { genText(env, 1) }, func() { genFileSet(env, 1) })
 	for _, f := range pins {
 		f()
 	}
 	r := env.Rng
 	for env.Count() < env.N {
-		switch k := r.Intn(28); {
+		switch k := r.Intn(31); {
+		case k >= 28:
+			genEval(env, 0)
 		case k < 9:
 			genProgram(env, 0)
 		case k >= 26:
